@@ -493,7 +493,12 @@ func writeEvidence(cfg workerCfg, eng engine, st *evid.Stats, wall float64, nvio
 		cov["simulated_steps"] = st.Steps
 		cov["simulated_time_note"] = "gonnx has no clock or timer; simulated time is counted in scheduler steps (yield points executed)"
 	} else {
-		cov["simulated_time_note"] = "no clock, timer or scheduler in this engine; a run is one publish-damage-read round trip"
+		switch cfg.Prop {
+		case "C02", "C06":
+			cov["simulated_time_note"] = "gonnx has no clock or timer; this check executes call histories serially (no scheduler steps): a run is one world, i.e. one interleaved history of <= 10-20 calls with its call faults"
+		default:
+			cov["simulated_time_note"] = "no clock, timer or scheduler in this engine; a run is one publish-damage-read round trip"
+		}
 	}
 	if len(st.Hashes2) > 0 {
 		cov["distinct_interleavings"] = evid.Distinct(st.Hashes2)
